@@ -279,3 +279,32 @@ PROPS["C07"] = simple(
                "session that never settles is a violation. Sampled over worlds and key histories.",
     level_note="Trusted: the keymap model in harness/ui/verif_driver_test.go (it fixes only what the README keymap and the statement fix) and kit/world's views. Items are identified by generator labels through their public methods. preload_amount >= 1.",
 )
+
+
+def c08_variants(tier, seed, s):
+    import os
+    hook = [os.path.join(s.bin, "dumphook"), "%url"]
+    return [dict(name="cache128", config=dict(preload=5, timeout=5, cache=128, hook=hook), env=dict(VERIF_HOOK_SLEEP_MS="3"), shards=(3 if tier == "quick" else 8)),
+            dict(name="cache2", config=dict(preload=2, timeout=5, cache=2, hook=hook), env=dict(VERIF_HOOK_SLEEP_MS="1"), shards=(3 if tier == "quick" else 8))]
+
+
+PROPS["C08"] = simple(
+    "ui", "TestVerifC08", "exploration",
+    "race-detector build. Sessions of three kinds over generated worlds served with 0..5 ms PRNG latency per response: (a) as main does it - one goroutine per key byte with 0..2 ms gaps (150 "
+    "tokens: navigation, numbers + Enter/'.', :open, :feed, media keys running the hook, arbitrary bytes), a resize poller flipping three sizes every 0.2..1 ms, start-up through "
+    "Subcommand(open|feed) in its own goroutine; (b) 32 goroutines building overlapping items through pub.New/Preview/Harvest/Parents (cache size 2 in one variant: evictions + singleflight); "
+    "(c) batches of 3..6 concurrent Update calls over load-free keys on three fully loaded pages, recorded as call/return intervals with the digest of the frame each call emitted, plus a "
+    "final state read. Non-trivial: every session/batch; distinct = interleaving signature (order of key returns, frames, start-up) resp. batch outcome.",
+    variants=c08_variants,
+    race=True,
+    porcupine=True,
+    tools=["dumphook"],
+    floor=dict(evaluations=3000, distinct=30, frames=2000, linearizability_batches=100, pub_stress_items=500),
+    timeout=dict(quick=900, thorough=3000),
+    technique="Go race detector over stress runs + frame-overlap detector + logical deadlock monitor + porcupine linearizability check of concurrent key presses against the keymap model",
+    level_text="The real UI is driven concurrently the way main drives it while four monitors watch: the race detector (any report with a servitor frame is a violation; its happens-before analysis "
+               "also flags unlocked accesses that were not scheduled adversarially), an atomic counter inside the output callback (two frames at once), a deadlock monitor (calls outstanding with "
+               "no connection in flight and goroutines parked on the UI mutex), and porcupine, which must find a sequential order of each batch of concurrent key presses that explains every "
+               "emitted frame and the final state. Schedules are sampled, not enumerated.",
+    level_note="Trusted: the Go race detector, porcupine v1.3.0, the restricted keymap model in harness/ui/verif_c08_test.go. Only what main/ui do concurrently is driven; start-up commands are ones that succeed.",
+)
